@@ -377,6 +377,9 @@ def run(ctx, rep):
     from . import c06
 
     c06.rule_iterloop(ctx, rep)  # lying iterators: the fill loop stores every item it takes, or panics
+    from . import c10
+
+    c10.rule_thin_ctor(ctx, rep)  # a len() that changes between calls is caught by the checked thin conversion
     rule_guard(ctx, rep)
     balance.rule_writeback(ctx, rep)
     rep.floor("R-WRITEBACK", 1, "OffsetArc::make_mut")
